@@ -7,9 +7,13 @@ use std::collections::BTreeSet;
 use std::sync::Arc;
 
 pub mod conc;
+pub mod connect;
 pub mod diff;
+pub mod hang;
+pub mod sched;
 pub mod seq_inv;
 pub mod subjects;
+pub mod timed;
 
 #[derive(Clone)]
 pub struct Ctx {
@@ -72,5 +76,9 @@ pub fn all() -> Vec<Property> {
   v.extend(diff::properties());
   v.extend(subjects::properties());
   v.extend(conc::properties());
+  v.extend(sched::properties());
+  v.extend(timed::properties());
+  v.extend(hang::properties());
+  v.extend(connect::properties());
   v
 }
